@@ -155,6 +155,7 @@ func (w *histWorld) drawRun(r *Rng, cfg HistConfig) *RunOp {
 	}
 	run := &RunOp{Args: args, Gens: gens, Sched: drawSched(r), Fresh: r.P(0.5)}
 	run.SecondContext = r.P(cfg.PWarm)
+	run.ViaRegistry = r.P(0.15)
 	if r.P(cfg.PCwd) {
 		// started inside a package directory (a go:generate line, "cd cmd/app && gengo ...")
 		var dirs []string
